@@ -158,9 +158,7 @@ func (m *Metadata) MarshalBinary() ([]byte, error) {
 
 // UnmarshalBinary implements encoding.BinaryUnmarshaler.
 func (m *Metadata) UnmarshalBinary(data []byte) error {
-	var read int64
-	for read < int64(len(data)) {
-		data = data[read:]
+	for len(data) != 0 {
 		v, _, err := varint.FromUvarint(data)
 		if err != nil {
 			return err
@@ -174,7 +172,7 @@ func (m *Metadata) UnmarshalBinary(data []byte) error {
 			return err
 		}
 		m.protocols = append(m.protocols, t)
-		read += tLen
+		data = data[tLen:]
 	}
 	return m.Validate()
 }
